@@ -189,6 +189,16 @@ def _nested_dict_get(d, path):
     return current
 
 
+def _nested_dict_merge(dst, src):
+    """Merge nested dictionary `src` into `dst` in place (a later write replaces
+    an earlier one at the leaves; namespaces are merged recursively)."""
+    for key, value in src.items():
+        if isinstance(value, dict) and isinstance(dst.get(key), dict):
+            _nested_dict_merge(dst[key], value)
+        else:
+            dst[key] = value
+
+
 @dataclass
 class State:
     """JAX interpreter that collects tagged state values.
@@ -310,10 +320,14 @@ class State:
                     reverse=reverse,
                 )
 
-                # Merge vectorized scan states into collected state
-                # scan_states is already vectorized by scan - just merge it
-                for name, vectorized_values in scan_states.items():
-                    self.collected_state[name] = vectorized_values
+                # Merge vectorized scan states into collected state, under the
+                # namespace that is current at the scan. scan_states is already
+                # vectorized by scan; namespaces saved inside the body are merged
+                # into existing namespaces of the same name, not substituted.
+                _nested_dict_merge(
+                    _nested_dict_get(self.collected_state, tuple(self.namespace_stack)),
+                    scan_states,
+                )
 
                 outvals = jtu.tree_leaves(
                     (flat_carry_out, scanned_out),
